@@ -18,7 +18,9 @@ def run(ctx):
     if ctx.thorough:
         ctx.tlc_mc(fam, "Lanes", "Lanes_MC_live_big.cfg", workers=8, timeout=3000)
         ctx.tlc_mc(fam, "Lanes", "Lanes_MC_big.cfg", workers=16, timeout=3000, heap="16g")
-    pdir, plans = ctx.tlc_plans(fam, "Lanes_Gen", "Lanes_Gen.cfg", num=ctx.q(100, 2000), depth=44)
+        ctx.tlc_mc(fam, "Lanes", "Lanes_MC_big_mline.cfg", workers=16, timeout=3000, heap="16g")
+        ctx.tlc_mc(fam, "Lanes", "Lanes_MC_big4.cfg", workers=16, timeout=3000, heap="16g")
+    pdir, plans = ctx.tlc_plans(fam, "Lanes_Gen", "Lanes_Gen.cfg", num=ctx.q(300, 5000), depth=44)
     binary = ctx.go_build("c14")
     ctx.harness(binary, ["-plans", pdir, "-out", ctx.path("steps.ndjson"), "-stress", ctx.path("stress.ndjson"),
                          "-seed", ctx.seed, "-rand", ctx.q(60, 1500), "-nstress", ctx.q(24, 600)],
